@@ -25,9 +25,9 @@ Fixed defect (fa1ef10): the module used to `import numpy` unconditionally (not a
 import itertools
 
 NAME = "nanro"
-STATUS = "model+differential"
-THEOREMS = []
-LEAN_FILE = None
+STATUS = "theorem"
+THEOREMS = ["Cspuz.C11.Nanro.program_iff_rules", "Cspuz.C11.Nanro.total"]
+LEAN_FILE = "C11_Nanro"
 LEAN_CMD = "puz_nanro"
 
 _SHAPES = [(1, 1), (1, 2), (2, 1), (1, 3), (3, 1), (1, 4), (4, 1), (1, 5), (5, 1), (2, 2), (2, 3), (3, 2), (2, 4), (4, 2), (3, 3),
